@@ -342,6 +342,24 @@ def check_map(case, rec=None):
             cmp("TensorMap.eps_crystal (rotated from eps_sample)", ec2, exp_c, bound_s)
         else:
             fails.append(exc_failure("TensorMap.eps_crystal (rotation path)", ec2))
+        # maps derived from the strain (hydrostatic and deviatoric part): reading them leaves the strain map as it
+        # was, and they add up to it
+        es_before = np.array(ms.eps_sample, float)
+        ok, dv = guard(lambda: (np.array(ms.eps_devia, float), np.array(ms.eps_hydro, float)))
+        if not ok:
+            fails.append(exc_failure("TensorMap.eps_devia / eps_hydro", dv))
+        else:
+            es_after = np.array(ms.eps_sample, float)
+            if not np.array_equal(es_after, es_before, equal_nan=True):
+                fails.append(fail("alias", "TensorMap.eps_sample changes when eps_devia / eps_hydro are read (by up to "
+                                  "%.3g)" % np.nanmax(np.abs(es_after - es_before)), route="devia"))
+            else:
+                m_ = ~nan
+                tr = np.trace(dv[0], axis1=-2, axis2=-1)
+                if m_.any() and (np.abs(tr[m_]).max() > 1e-12 or
+                                 np.abs((dv[0] + dv[1] - es_before)[m_]).max() > 1e-12):
+                    fails.append(fail("closedform", "eps_devia + eps_hydro != eps_sample, or eps_devia has a trace",
+                                      route="devia"))
         # inverse rotations
         T = rng.standard_normal(shape + (3, 3))
         T[nan] = np.nan
